@@ -230,7 +230,7 @@ def gen_ical(rng, uid=None):
         uid = rng.choice(UIDS)
     comp = rng.choice(["VEVENT", "VEVENT", "VTODO", "VJOURNAL"])
     summary = rng.choice(SUMMARIES) + rng.choice(["", " 2", " 3"])
-    extra = rng.choice(["", "", "DESCRIPTION:line one\\nline two", "CATEGORIES:A,B",
+    extra = rng.choice(["", "", "DESCRIPTION:line one\\nline two", "CATEGORIES:A,B", "DESCRIPTION:room\tB12 (a tab)",
                         "BEGIN:VALARM\nACTION:DISPLAY\nTRIGGER:-PT15M\nDESCRIPTION:r\nEND:VALARM"
                         if comp == "VEVENT" else "", "LOCATION;LANGUAGE=en:Room \"1\""])
     eol = rng.choice(["\r\n", "\r\n", "\n"])
